@@ -22,7 +22,7 @@ pub fn mk_ctx(bus: &Bus, cl: usize, name: String, rng: &mut Rng, tokens: &Rc<Cel
 pub fn spawn_program(bus: &mut Bus, prng: &mut Rng, mix: &str, tokens: &Rc<Cell<u32>>) -> (u64, Vec<roles::ServiceSlot>) {
     let mut slots = Vec::new();
     let n = bus.clients.len();
-    let want = |what: &str| mix == "all" || mix.split(',').any(|m| m == what);
+    let want = |what: &str| mix == "all" || mix == "versions" || mix.split(',').any(|m| m == what);
     let mut roles_n = 0;
 
     if n >= 2 {
